@@ -4,6 +4,7 @@ CONSTANT GEN = 3
 CONSTANT DropKind = "none"
 CONSTANT DropIdx = 0
 CONSTANT Cases <- Cases17
+CONSTANT Sel = {}
 INIT InitRows
 NEXT NextRows
 INVARIANT Satisfied
